@@ -93,7 +93,15 @@ func vfSpecJSON(version int) interface{} {
 
 // vfFold applies a result's changes to the shadow store the way Stdio does.
 func vfFold(shadow map[string]*crew.Machine, r *Result) {
-	for mid, m := range r.Changed {
+	// (in a fixed order: the copies below pass through instrumented code - tape draws and
+	// yields - so the runtime's random map order would make a run unrepeatable)
+	mids := make([]string, 0, len(r.Changed))
+	for mid := range r.Changed {
+		mids = append(mids, mid)
+	}
+	sort.Strings(mids)
+	for _, mid := range mids {
+		m := r.Changed[mid]
 		if m.Deleted {
 			delete(shadow, mid)
 			continue
